@@ -300,6 +300,9 @@ ob("font_widths_get", ["C19"], "font.rs", unwind=6, timeout=600, functions=["fon
 ob("font_widths_commute", ["C19"], "font.rs", unwind=16, timeout=1200, mem_gb=12, functions=WFN,
    bound="5 concrete (first_char, len, code a, code b) shapes; both insertion orders give the same table")
 
+ob("func_sampled_2d_total", ["C14"], "func.rs", unwind=8, cuts=X1_ERR, stubs=[FMT_STUB], timeout=1500, mem_gb=16,
+   functions=["object::function::SampledFunction::apply", "object::function::SampledFunctionInput::map", "object::function::SampledFunctionOutput::map"],
+   bound="2 inputs, 1 output, 4 sample bytes; every f32 /Domain, /Encode, /Decode, every u32 /Size, every f32 argument pair: no panic")
 ob("font_widths_group_shapes", ["C19"], "font.rs", unwind=16, timeout=1200, mem_gb=12, functions=WFN + ["font::Widths::set"],
    bound="6 concrete (first_char, len, group start, group length) shapes; one array-form /W group applied as Font::widths does "
          "(ensure_cid, then set per element); entries/default/widths over all u16 values; every queried code 0..=14")
@@ -309,21 +312,21 @@ ob("font_widths_group_shapes", ["C19"], "font.rs", unwind=16, timeout=1200, mem_
 # ---------------------------------------------------------------------------------------------------------------------
 PSFN = ["object::function::PsFunc::exec", "object::function::PsFunc::exec_inner"]
 for l_ in (0, 1, 2, 3):
-    ob("func_ps_ops_l%d" % l_, ["C14", "C01"], "func.rs", unwind=8, cuts=X1_ERR, stubs=[FMT_STUB], timeout=900, mem_gb=12, functions=PSFN,
+    ob("func_ps_ops_l%d" % l_, ["C14"], "func.rs", unwind=8, cuts=X1_ERR, stubs=[FMT_STUB], timeout=900, mem_gb=12, functions=PSFN,
        bound="stack of %d arbitrary f32 values; dup exch add sub mul abs pop cvr, integer and real literals with arbitrary values; "
              "wrong output length" % l_)
 for l_ in (0, 2, 3):
-    ob("func_ps_index_l%d" % l_, ["C14", "C01"], "func.rs", unwind=8, cuts=X1_ERR, stubs=[FMT_STUB], timeout=900, mem_gb=12, functions=PSFN,
+    ob("func_ps_index_l%d" % l_, ["C14"], "func.rs", unwind=8, cuts=X1_ERR, stubs=[FMT_STUB], timeout=900, mem_gb=12, functions=PSFN,
        bound="stack of %d arbitrary f32 values, 'n index' for every f32 n" % l_)
 for l_ in (1, 2, 3):
-    ob("func_ps_roll_l%d" % l_, ["C14", "C01"], "func.rs", unwind=12, cuts=X1_ERR, stubs=[FMT_STUB], timeout=900, mem_gb=12, functions=PSFN,
+    ob("func_ps_roll_l%d" % l_, ["C14"], "func.rs", unwind=12, cuts=X1_ERR, stubs=[FMT_STUB], timeout=900, mem_gb=12, functions=PSFN,
        bound="stack of %d arbitrary f32 values, 'n j roll' for every concrete n in 0..=%d and j in -%d..=%d" % (l_, l_, l_ + 1, l_ + 1))
 for l_ in (0, 2):
-    ob("func_ps_roll_hostile_l%d" % l_, ["C14", "C01"], "func.rs", unwind=8, cuts=X1_ERR, stubs=[FMT_STUB], timeout=900, mem_gb=12, functions=PSFN,
+    ob("func_ps_roll_hostile_l%d" % l_, ["C14"], "func.rs", unwind=8, cuts=X1_ERR, stubs=[FMT_STUB], timeout=900, mem_gb=12, functions=PSFN,
        bound="stack of %d values, 'n j roll' for every f32 n >= %d and every f32 j: an error" % (l_, l_ + 1))
-ob("func_ps_roll_degenerate", ["C14", "C01"], "func.rs", unwind=8, cuts=X1_ERR, stubs=[FMT_STUB], timeout=900, mem_gb=12, functions=PSFN,
+ob("func_ps_roll_degenerate", ["C14"], "func.rs", unwind=8, cuts=X1_ERR, stubs=[FMT_STUB], timeout=900, mem_gb=12, functions=PSFN,
    bound="stack of 2 values, 'n j roll' for every f32 n that is not positive (negative, zero, NaN) and every f32 j: no panic")
-ob("func_sampled_1d_total", ["C14", "C01"], "func.rs", unwind=8, cuts=X1_ERR, stubs=[FMT_STUB], timeout=900, mem_gb=12,
+ob("func_sampled_1d_total", ["C14"], "func.rs", unwind=8, cuts=X1_ERR, stubs=[FMT_STUB], timeout=900, mem_gb=12,
    functions=["object::function::SampledFunction::apply", "object::function::SampledFunctionInput::map", "object::function::SampledFunctionOutput::map"],
    bound="1 input, 1 output, 4 sample bytes; every f32 /Domain, /Encode, /Decode, every u32 /Size, every f32 argument: no panic")
 
@@ -438,7 +441,6 @@ ob("enc_a85_enc_tail3_after_group", ["C16"], "enc.rs", unwind=12, cuts=X1_ERR, t
 for h_, b_ in (("enc_a85_enc_zero_then_word", "00 00 00 00 41 42 43 t"), ("enc_a85_enc_word_then_zero", "41 42 43 t 00 00 00 00"),
                ("enc_a85_enc_zero_zero_word_tail", "two zero words, fe ff 01 t, tail byte t")):
     ob(h_, ["C16"], "enc.rs", unwind=22, cuts=X1_ERR, timeout=1800, mem_gb=12,
-       tier="quick" if h_ == "enc_a85_enc_zero_then_word" else "thorough",
        functions=["enc::encode", "enc::encode_85", "enc::base85_chunk"],
        bound="input = %s with t symbolic (the all-zero shorthand next to ordinary words): output accepted by the reference decoder "
              "with the input as result" % b_)
